@@ -336,8 +336,16 @@ class NFEval:
         if k in ('tuple', 'list'):
             return Struct([self.nf(a) for a in n.args])
         if k == 'sub':
-            base = self.nf(n.args[0])
             idx = n.args[1]
+            bn = n.args[0]
+            # read-over-write with constant indices: sub(store(b, i, v), j) = v if i == j else sub(b, j)
+            while bn.kind == 'store' and idx.kind == 'const' and isinstance(idx.val, int) and not isinstance(idx.val, bool) \
+                    and bn.args[1].kind == 'const' and isinstance(bn.args[1].val, int) \
+                    and not isinstance(bn.args[1].val, bool) and (idx.val >= 0) == (bn.args[1].val >= 0):
+                if bn.args[1].val == idx.val:
+                    return self.nf(bn.args[2])
+                bn = bn.args[0]
+            base = self.nf(bn)
             if isinstance(base, Struct) and idx.kind == 'const' and isinstance(idx.val, int) \
                     and -len(base.items) <= idx.val < len(base.items):
                 return base.items[idx.val]
@@ -444,6 +452,12 @@ class NFEval:
             return self.add(self.nf(args[0]), self.nf(args[1]), -1)
         if name in ('numpy.full', 'numpy.full_like') and len(args) >= 2:
             return self.nf(args[1])
+        if name in ('builtins.abs', 'numpy.abs', 'numpy.absolute', 'numpy.fabs', 'math.fabs') and len(args) == 1:
+            x = self.nf(args[0])
+            # atoms are positive quantities (the convention of every normal form here; a parameter
+            # documented as negative is entered as -1 * positive atom by the caller)
+            if isinstance(x, Mono) and not any(k.startswith('numpy.sign(') for k in x.f):
+                return Mono(abs(x.coef), x.f)
         if name in ('numpy.log', 'math.log', 'numpy.log10') and len(args) == 1:
             x = self.nf(args[0])
             if isinstance(x, Mono) and x.coef == 1 and not x.f:
